@@ -12,7 +12,10 @@ class SecureCookieMixin:
 
         samesite = matchers.Arg(
             keyword=matchers.Name(value="samesite"),
-            value=matchers.SimpleString(value="'Strict'"),
+            # either quote style
+            value=matchers.SimpleString(
+                value=matchers.MatchIfTrue(lambda value: value in ("'Strict'", '"Strict"'))
+            ),
         )
 
         # samesite=Strict is OK because it's more restrictive than Lax.
